@@ -21,6 +21,7 @@ import BronVerif.Lemmas.SharingPoly
 import BronVerif.Lemmas.SharingThreshold
 import BronVerif.Lemmas.SharingTree
 import BronVerif.Lemmas.SharingHier
+import BronVerif.Lemmas.SharingDeal
 /-!
 # C02 — exactly the qualified sets can reconstruct; unqualified sets learn nothing
 
@@ -665,6 +666,71 @@ example : (hierMSP (F := ZMod 7) [(2, [1, 2]), (3, [3])]).accepts [1, 3] = false
     rcases hi with rfl | rfl | rfl <;> decide
 
 end Partial
+
+/-! ## the executable scheme: dealing, reconstruction, linearity -/
+
+section ModelScheme
+open BronVerif.Access BronVerif.Sharing BronVerif.LinAlg
+variable {F : Type} [Field F] [DecidableEq F]
+
+/-- **Reconstruction, for the executable model** (`MSP.deal` = `kw.NewDealerFunc`, `λ = M·r`;
+`MSP.reconstruct` = `kw.Scheme.Reconstruct` with the reconstruction vector of the mirrored solver):
+for a programme whose rows all have `cols` entries, every set `S` the programme accepts reconstructs
+the dealt secret `r₀` from its shares, whatever the rest of the random column `r` is.  Together with
+`model_accepts_iff_qualified_threshold` / `lcw_holds` (accepted = qualified) this is "every qualified
+set reconstructs the dealt secret" for threshold and gate-tree policies on the definitions the
+driver runs. -/
+theorem model_reconstruct (m : MSP F) (S : List ℕ) (r : List F)
+    (hw : ∀ row ∈ m.mat, row.length = m.cols) (hr : r.length = m.cols) (hpos : 0 < m.cols)
+    (hacc : m.accepts S = true) : m.reconstruct S (m.deal r) = some (r.getD 0 0) :=
+  BronVerif.Lemmas.SharingDeal.reconstruct_deal m S r hw hr hpos hacc
+
+/-- **Adding shares, for the executable model**: the share vector of `r + r'` is the sum of the share
+vectors, and an accepted set reconstructs `r₀ + r'₀` from the added shares. -/
+theorem model_share_add (m : MSP F) (S : List ℕ) (r r' : List F)
+    (hw : ∀ row ∈ m.mat, row.length = m.cols) (hr : r.length = m.cols) (hr' : r'.length = m.cols)
+    (hpos : 0 < m.cols) (hacc : m.accepts S = true) :
+    vadd (m.deal r) (m.deal r') = m.deal (vadd r r') ∧
+      m.reconstruct S (vadd (m.deal r) (m.deal r')) = some (r.getD 0 0 + r'.getD 0 0) := by
+  have hadd := BronVerif.Lemmas.SharingDeal.deal_add m r r' (hr.trans hr'.symm)
+  refine ⟨hadd.symm, ?_⟩
+  rw [← hadd, model_reconstruct m S (vadd r r') hw (by simp [vadd, hr, hr']) hpos hacc]
+  congr 1
+  cases r with
+  | nil => simp at hr; omega
+  | cons a r =>
+    cases r' with
+    | nil => simp at hr'; omega
+    | cons b r' => simp [vadd]
+
+/-- **Scaling shares, for the executable model**: the share vector of `k·r` is `k` times the share
+vector, and an accepted set reconstructs `k·r₀` from the scaled shares. -/
+theorem model_share_smul (m : MSP F) (S : List ℕ) (k : F) (r : List F)
+    (hw : ∀ row ∈ m.mat, row.length = m.cols) (hr : r.length = m.cols)
+    (hpos : 0 < m.cols) (hacc : m.accepts S = true) :
+    vsmul k (m.deal r) = m.deal (vsmul k r) ∧
+      m.reconstruct S (vsmul k (m.deal r)) = some (k * r.getD 0 0) := by
+  have hsm := BronVerif.Lemmas.SharingDeal.deal_smul m k r
+  refine ⟨hsm.symm, ?_⟩
+  rw [← hsm, model_reconstruct m S (vsmul k r) hw (by simp [vsmul, hr]) hpos hacc]
+  congr 1
+  cases r with
+  | nil => simp at hr; omega
+  | cons a r => simp [vsmul]
+
+/-- the (2,3) threshold programme over `ZMod 7` as the model represents it -/
+def m23 : MSP (ZMod 7) := { mat := [[1, 1], [1, 2], [1, 3]], cols := 2, holders := [1, 2, 3] }
+
+example : m23.reconstruct [1, 3] (m23.deal [4, 5]) = some 4 :=
+  model_reconstruct m23 [1, 3] [4, 5] (by decide) rfl (by decide) (by decide +kernel)
+
+example : m23.reconstruct [2, 3] (vadd (m23.deal [4, 5]) (m23.deal [6, 1])) = some (4 + 6) :=
+  (model_share_add m23 [2, 3] [4, 5] [6, 1] (by decide) rfl rfl (by decide) (by decide +kernel)).2
+
+example : m23.reconstruct [1, 2] (vsmul 3 (m23.deal [4, 5])) = some (3 * 4) :=
+  (model_share_smul m23 [1, 2] 3 [4, 5] (by decide) rfl (by decide) (by decide +kernel)).2
+
+end ModelScheme
 
 section Insertion
 variable {F : Type*} [Field F] {ρ δ ι : Type*} [Fintype ρ] [Fintype δ] [Fintype ι] [DecidableEq ρ]
